@@ -1,2 +1,57 @@
-From CubedV Require Import Model.Util Model.Keys Model.Exec Model.ExecObs.
-Lemma placeholder_c09 : resume_skips [(1,[0])] [(false, [(1,[0])]); (false, [(2,[0])])] = [true; false]. Proof. reflexivity. Qed.
+(* C09: resume after a crash gives the same result and never trusts an incomplete array. *)
+
+From CubedV Require Import Model.Util Model.Keys Model.Exec Model.ExecObs Proofs.ExecProofs.
+From Coq Require Import Permutation.
+
+
+Theorem C09_resume_correct : forall (V : Type) (always : op V -> bool) (p : list (op V)) (s0 sc : store V),
+  plan_ok V p -> crash_state V p s0 sc ->
+  seq V (resume_plan V always sc p) (run_plan V s0 p).
+Proof. exact (resume_correct). Qed.
+Print Assumptions C09_resume_correct.
+
+Theorem C09_skip_only_complete : forall (V : Type) (s : store V) (o : op V), complete V s o = true ->
+  forall k, mem_key k (op_writes V o) = true -> exists v, s k = Some v.
+Proof. exact (skip_only_complete). Qed.
+Print Assumptions C09_skip_only_complete.
+
+Theorem C09_never_wipes : forall (V : Type) (always : op V -> bool) (p : list (op V)) (sc : store V) k v,
+  sc k = Some v -> exists v', resume_plan V always sc p k = Some v'.
+Proof. exact (never_wipes). Qed.
+Print Assumptions C09_never_wipes.
+
+Theorem C09_final_if_present : forall (V : Type) (done rest : list (op V)) (o : op V) (s0 : store V)
+    (ws : list (task V * key)),
+  plan_ok V (done ++ o :: rest) ->
+  (forall o' k, In o' (o :: rest) -> mem_key k (op_writes V o') = true -> s0 k = None) ->
+  (forall tw, In tw ws -> In (fst tw) o /\ mem_key (snd tw) (t_writes V (fst tw)) = true) ->
+  let s1 := run_plan V s0 done in
+  crash_state V (done ++ o :: rest) s0
+    (fold_left (fun s tw => write_one V s1 (fst tw) (snd tw) s) ws s1).
+Proof. exact (final_if_present). Qed.
+Print Assumptions C09_final_if_present.
+
+Theorem C09_final_if_present_gen : forall (V : Type) (done rest : list (op V)) (o : op V) (s0 : store V)
+    (ws : list (task V * key)),
+  plan_ok V (done ++ o :: rest) ->
+  (forall o' k v, In o' (o :: rest) -> mem_key k (op_writes V o') = true -> s0 k = Some v ->
+     run_plan V s0 (done ++ o :: rest) k = Some v) ->
+  (forall tw, In tw ws -> In (fst tw) o /\ mem_key (snd tw) (t_writes V (fst tw)) = true) ->
+  let s1 := run_plan V s0 done in
+  crash_state V (done ++ o :: rest) s0
+    (fold_left (fun s tw => write_one V s1 (fst tw) (snd tw) s) ws s1).
+Proof. exact (final_if_present_gen). Qed.
+Print Assumptions C09_final_if_present_gen.
+
+Theorem C09_final_if_present_unrestricted_false :
+  ~ (forall (done rest : list (op nat)) (o : op nat) (s0 : store nat) (ws : list (task nat * key)),
+      plan_ok nat (done ++ o :: rest) ->
+      (forall tw, In tw ws -> In (fst tw) o /\ mem_key (snd tw) (t_writes nat (fst tw)) = true) ->
+      let s1 := run_plan nat s0 done in
+      crash_state nat (done ++ o :: rest) s0
+        (fold_left (fun s tw => write_one nat s1 (fst tw) (snd tw) s) ws s1)).
+Proof. exact (final_if_present_unrestricted_false). Qed.
+Print Assumptions C09_final_if_present_unrestricted_false.
+
+Example C09_resume_decision : resume_skips [(1,[0])] [(false, [(1,[0])]); (false, [(2,[0])]); (true, [(1,[0])])] = [true; false; false].
+Proof. reflexivity. Qed.
